@@ -153,13 +153,13 @@ Section Facts.
   Qed.
 
   (** ---- forward visit ---- *)
-  Lemma fwd_step_inv : forall radial s x, s < length g -> inv g radial x ->
-    inv g radial (fwd_step false dm radial s x).
+  Lemma fwd_step_inv : forall radial s order x, s < length g -> inv g radial x ->
+    inv g radial (fwd_step false dm radial s order x).
   Proof.
-    intros radial s x Hs I. destruct I as [[L1 [L2 [L3 L4]]] IF IB IdL Idv IlFd IlBd IrU Irv IR].
+    intros radial s order x Hs I. destruct I as [[L1 [L2 [L3 L4]]] IF IB IdL Idv IlFd IlBd IrU Irv IR].
     assert (Hdm : length dm = length g) by apply dist_matrix_length.
     assert (He : ecc_f_dm dm s = EF g s) by reflexivity.
-    unfold fwd_step. cbn [bl bh]. rewrite Hdm, He.
+    unfold fwd_step. cbn [bl bh fst snd]. rewrite Hdm, He.
     constructor; cbn [lF uF lB uB dL dv rU rv].
     - rewrite !upd_length, tab_length. repeat split; assumption.
     - intros v Hv. rewrite !upd_nth by lia. destruct (v =? s) eqn:E.
@@ -258,7 +258,7 @@ Section Facts.
     destruct I as [[L1 [L2 [L3 L4]]] IF IB IdL Idv IlFd IlBd IrU Irv IR].
     assert (Hdm : length dm = length g) by apply dist_matrix_length.
     assert (He : becc false dm s = EB g s) by reflexivity.
-    unfold bwd_step. rewrite Hdm, He. cbn [bdist].
+    unfold bwd_step. rewrite Hdm, He. cbn [bdist andb].
     set (dist := fun v => dget dm v s).
     change (bdist false dm s) with dist.
     set (r := fold_left (rad_visit x radial dist) order (rU x, rv x)).
@@ -312,9 +312,10 @@ Section Facts.
   Theorem step_invariant_g : forall radial o x, legal_op g o -> inv g radial x ->
     inv g radial (step false dm radial o x).
   Proof.
-    intros radial [s|s order] x Hl I; cbn [step legal_op] in *.
+    intros radial [s order|s order|piv order] x Hl I; cbn [step legal_op] in *.
     - apply fwd_step_inv; assumption.
     - destruct Hl as [Hs Hcov]. apply bwd_step_inv; assumption.
+    - destruct Hl.
   Qed.
 
   Theorem run_invariant_g : forall radial ops x, Forall (legal_op g) ops -> inv g radial x ->
@@ -431,21 +432,28 @@ Section Exit.
     - intros H i Hi. apply in_seq in Hi. apply negb_true_iff. apply H. unfold n in Hi. lia.
   Qed.
 
+  (** at the exit of a level reporting the radius, rU is at most the radius *)
+  Lemma exit_rU_le : m_r m = 0 -> forall r, radius_from (eccs_f dm) radial = Some r -> rU x <= r.
+  Proof.
+    intros H r Er. destruct I as [_ IF _ _ _ _ _ IrU _ IR].
+    pose proof Er as Er'. apply radius_from_some in Er'.
+    destruct Er' as [[i [Hi [Hrad Hnth]]] _]. unfold dm in Hi. rewrite eccs_f_length in Hi.
+    unfold dm in Hnth. rewrite eccs_f_nth in Hnth by exact Hi.
+    pose proof (count_zero _ _ H i Hi) as Hc. cbn beta in Hc. rewrite Hrad in Hc.
+    specialize (IF i Hi). unfold EF in IF. fold dm in IF.
+    rewrite andb_true_r in Hc. apply andb_false_iff in Hc. destruct Hc as [Hc|Hc].
+    - apply incF_false in Hc. specialize (IR i Hi Hrad Hc). fold dm in Hnth. lia.
+    - apply Nat.ltb_ge in Hc. fold dm in Hnth. lia.
+  Qed.
+
   Lemma exit_rad : m_r m = 0 -> check_rad dm radial o = true.
   Proof.
     intros H. unfold check_rad. cbn [o output o_rad].
     destruct (no_radial n radial) eqn:En.
     - apply no_radial_iff in En. rewrite En. reflexivity.
     - destruct (radius_from (eccs_f dm) radial) as [r|] eqn:Er.
-      + apply Nat.eqb_eq. destruct I as [_ IF _ _ _ _ _ IrU _ IR].
-        pose proof (IrU r Er) as Hle. pose proof Er as Er'. apply radius_from_some in Er'.
-        destruct Er' as [[i [Hi [Hrad Hnth]]] _]. unfold dm in Hi. rewrite eccs_f_length in Hi.
-        unfold dm in Hnth. rewrite eccs_f_nth in Hnth by exact Hi.
-        pose proof (count_zero _ _ H i Hi) as Hc. cbn beta in Hc. rewrite Hrad in Hc.
-        specialize (IF i Hi). unfold EF in IF. fold dm in IF.
-        rewrite andb_true_r in Hc. apply andb_false_iff in Hc. destruct Hc as [Hc|Hc].
-        * apply incF_false in Hc. specialize (IR i Hi Hrad Hc). fold dm in Hnth. lia.
-        * apply Nat.ltb_ge in Hc. fold dm in Hnth. lia.
+      + apply Nat.eqb_eq. pose proof (exit_rU_le H r Er). destruct I as [_ _ _ _ _ _ _ IrU _ _].
+        pose proof (IrU r Er). lia.
       + apply no_radial_iff in Er. congruence.
   Qed.
 
@@ -481,11 +489,24 @@ Section Exit.
     - rewrite (exit_rad H). reflexivity.
   Qed.
 
-  Theorem exit_rv_g : rU x <> n - 1 -> check_rv dm radial o = true.
+  Lemma wants_rad_mr : forall l, wants_rad l = true -> missing_nodes l m = 0 -> m_r m = 0.
   Proof.
-    intros Hne. unfold check_rv. cbn [o output o_rad o_rv].
-    destruct (no_radial n radial); [reflexivity|].
-    destruct I as [_ _ _ _ _ _ _ _ Irv _]. destruct Irv as [H|[Hv [Hrad He]]]; [contradiction|].
+    intros l Hw H. destruct l; cbn [missing_nodes] in H; try discriminate Hw; try lia.
+    - assert (Haf : m_af m = 0) by lia. apply af_implies. exact Haf.
+    - apply af_implies. exact H.
+  Qed.
+
+  Theorem exit_rv_g : m_r m = 0 -> check_rv dm radial o = true.
+  Proof.
+    intros Hm. unfold check_rv. cbn [o output o_rad o_rv].
+    destruct (no_radial n radial) eqn:En; [reflexivity|].
+    destruct (radius_from (eccs_f dm) radial) as [r|] eqn:Er; [|apply no_radial_iff in Er; congruence].
+    pose proof (exit_rU_le Hm r Er) as Hle.
+    pose proof Er as Er'. apply radius_from_some in Er'.
+    destruct Er' as [[i [Hi [_ Hnth]]] _]. unfold dm in Hi. rewrite eccs_f_length in Hi.
+    unfold dm in Hnth. rewrite eccs_f_nth in Hnth by exact Hi.
+    pose proof (EF_lt_n g Hwf Hn i Hi) as Hlt. unfold EF in Hlt.
+    destruct I as [_ _ _ _ _ _ _ _ Irv _]. destruct Irv as [H|[Hv [Hrad He]]]; [lia|].
     rewrite Hrad. unfold dm. rewrite dist_matrix_length. apply andb_true_iff. split.
     - apply andb_true_iff. split; [apply Nat.ltb_lt; exact Hv | reflexivity].
     - apply Nat.eqb_eq. exact He.
@@ -496,23 +517,33 @@ Theorem exit_exact : S_exit_exact.
 Proof. intros g radial l x Hwf Hn I H. apply exit_exact_g; assumption. Qed.
 
 Theorem exit_radial_vertex : S_exit_radial_vertex.
-Proof. intros g radial l x Hwf Hn I _ H. apply exit_rv_g; assumption. Qed.
+Proof.
+  intros g radial l x Hwf Hn I Hw H. apply exit_rv_g; try assumption.
+  eapply wants_rad_mr; eassumption.
+Qed.
+
+Lemma check_ess_dm_split : forall dm radial o l, check_values dm radial o l = true ->
+  (wants_rad l = true -> check_rv dm radial o = true) -> check_ess_dm dm radial o l = true.
+Proof.
+  intros dm radial o l Hv Hr. unfold check_values in Hv. unfold check_ess_dm.
+  destruct (wants_rad l); cbn [negb orb] in *.
+  - rewrite (Hr eq_refl), andb_true_r. exact Hv.
+  - exact Hv.
+Qed.
 
 Theorem machine_exact : S_machine_exact.
 Proof.
-  intros g radial ops l Hwf Hn Hl Hz. cbv zeta. unfold replay in *. cbn [fst snd] in *.
-  pose proof (run_invariant g radial ops Hwf Hn Hl) as I. split.
+  intros g radial ops l Hwf Hn Hl Hz. unfold replay in *. cbn [fst snd] in *.
+  pose proof (run_invariant g radial ops Hwf Hn Hl) as I. unfold check_ess.
+  apply check_ess_dm_split.
   - apply exit_exact_g; assumption.
-  - intros Hne. destruct (no_radial (length g) radial) eqn:En.
-    + unfold check_rv, output. cbn [o_rad]. rewrite En. reflexivity.
-    + apply exit_rv_g; try assumption. intros E. apply Hne. unfold output. cbn [o_rad].
-      rewrite En, E. reflexivity.
+  - intros Hw. apply exit_rv_g; try assumption. eapply wants_rad_mr; eassumption.
 Qed.
 
 (** ---- the two defects, on the model ---- *)
 Theorem radial_vertex_refuted : S_radial_vertex_refuted.
 Proof.
-  exists [[]; [0]], [false; true], [OFwd 1; OBwd 0 [0; 1]; OFwd 0; OBwd 1 [1]], LRadius.
+  exists [[]; [0]], [false; true], [OFwd 1 []; OBwd 0 [0; 1]; OFwd 0 []; OBwd 1 [1]], LRadius.
   split; [reflexivity|]. split.
   - apply Forall_cons; [cbn; lia|]. apply Forall_cons.
     { split; [cbn; lia|]. intros a Ha _.
@@ -525,7 +556,7 @@ Qed.
 
 Theorem symm_radius_refuted : S_symm_radius_refuted.
 Proof.
-  exists [[]; [1]], [true; false], [OFwd 1; OBwd 0 [0]], LRadius.
+  exists [[]; [1]], [true; false], [OFwd 1 [1]; OBwd 0 [0]], LRadius.
   split; [reflexivity|]. split.
   - intros u v H. destruct u as [|[|u]]; cbn in H.
     + destruct H.
@@ -533,6 +564,9 @@ Proof.
     + destruct u; destruct H.
   - split; vm_compute; reflexivity.
 Qed.
+
+Theorem witnesses_repaired : S_witnesses_repaired.
+Proof. split; cbv zeta; split; vm_compute; reflexivity. Qed.
 
 (** ---- replacing upper bounds by better upper bounds ---- *)
 Theorem tighten_step_invariant : S_tighten_step_invariant.
